@@ -188,6 +188,10 @@ class C16(Check):
 
     def render_case(self, c):
         i, o = c["in"], c["obs"]
+        if i["kind"] == "branch":
+            return "CBrs (%s, %s)" % (cN(i["w"]), clist(["(%s, %s, (%s, %s), (%s, %s, %s))" % (
+                cN(x["op"]), cN(x["arg"]), cN(x["r1"]), cN(x["r2"]), cN(x["next"]), cN(x["ninv"]), cN(x["naddr"]))
+                for x in o.get("brs") or []]))
         if i["kind"] == "birthday":
             return "CBday (%s, %s, %s)" % (clist([cZ(t) for t in i["ts"]]), cZ(o["search_for"]), cZ(o["height"]))
         blocks = clist(["\n    (%s, %s)" % (cN(b["h"]), clist([_tx(t) for t in b["txs"]])) for b in i["blocks"]])
